@@ -149,6 +149,7 @@ E_FORMS = ("call", "setattr", "connect", "replace")
 def elab_histories(rnd, n, maxlen):
     tg = [("sig", k) for k in range(3)] + [("ref", i, p) for i in range(3) for p in E_PORTS] + [("noconn",), ("bit", 0),
                                                                                               ("bit", 1), ("cat", 0)]
+    tg += [("held", i, p) for i in range(3) for p in E_PORTS] + [("catref", i, p) for i in range(3) for p in E_PORTS]
     for _ in range(n):
         L = rnd.randint(2, maxlen)
         yield tuple((rnd.choice(E_FORMS + ("disconnect",)), rnd.randrange(3), rnd.choice(E_PORTS), rnd.choice(tg))
@@ -166,6 +167,14 @@ def small_elab_histories():
                 yield (("setattr", 0, "a", x), ("setattr", 1, "a", ("ref", 0, "a")), (f, 0, "a", y))
                 yield (("setattr", 1, "a", ("ref", 0, "a")), ("setattr", 0, "a", x), (f, 0, "a", y))
                 yield (("setattr", 0, "a", x), ("setattr", 1, "a", ("ref", 0, "a")), (f, 1, "a", y), ("setattr", 0, "a", y))
+    # one PortRef object used directly AND held elsewhere (a saved variable, a concatenation); the direct use replaced
+    for keep in (("held", 0, "a"), ("catref", 0, "a")):
+        for f in ("setattr", "replace", "connect"):
+            for y in (("sig", 1), ("bit", 0)):
+                yield (("setattr", 1, "a", ("held", 0, "a")), ("setattr", 2, "a", keep), (f, 1, "a", y), ("setattr", 0, "a", ("sig", 0)))
+                yield (("setattr", 1, "a", ("held", 0, "a")), (f, 1, "a", y), ("setattr", 2, "a", keep), ("setattr", 0, "a", ("sig", 0)))
+                yield (("setattr", 1, "a", ("held", 0, "a")), ("disconnect", 1, "a", None), ("setattr", 2, "a", keep),
+                       ("setattr", 1, "a", y), ("setattr", 0, "a", ("sig", 0)))
     for y in ys:
         yield (("setattr", 1, "a", ("ref", 0, "a")), ("setattr", 1, "a", ("sig", 2)), ("setattr", 0, "a", y))
         yield (("setattr", 1, "a", ("ref", 0, "a")), ("disconnect", 1, "a", None), ("setattr", 0, "a", y))
@@ -180,12 +189,17 @@ def check_elab_history(hist):
     bus = top.add(h.Signal(name="bus", width=2))
     insts = [top.add(E()(), name=f"i{k}") for k in range(3)]
     view = {}
+    held = {(i, p): getattr(insts[i], p) for i in range(3) for p in E_PORTS}    # references saved before anything happens
 
     def obj(t):
         if t[0] == "sig":
             return sigs[t[1]]
         if t[0] == "ref":
             return getattr(insts[t[1]], t[2])
+        if t[0] == "held":
+            return held[(t[1], t[2])]
+        if t[0] == "catref":
+            return h.Concat(held[(t[1], t[2])])
         if t[0] == "bit":
             return bus[t[1]]
         if t[0] == "cat":
@@ -194,7 +208,7 @@ def check_elab_history(hist):
     w = {"elab_history": repr(hist)}
     for step, (op, i, p, t) in enumerate(hist):
         inst = insts[i]
-        if t is not None and t[0] == "ref" and (t[1], t[2]) == (i, p):
+        if t is not None and t[0] in ("ref", "held", "catref") and (t[1], t[2]) == (i, p):
             continue                                  # a port connected to itself: not a connection
         if op in ("replace", "disconnect") and (i, p) not in view:
             continue                                  # documented KeyError; covered by the data-structure histories
@@ -216,7 +230,7 @@ def check_elab_history(hist):
         else:
             view[(i, p)] = t
     # completion: every port explicitly connected, or referenced by a connection that is still live
-    referenced = {(t[1], t[2]) for t in view.values() if t[0] == "ref"}
+    referenced = {(t[1], t[2]) for t in view.values() if t[0] in ("ref", "held", "catref")}
     for i in range(3):
         for p in E_PORTS:
             if (i, p) not in view and (i, p) not in referenced:
@@ -224,6 +238,19 @@ def check_elab_history(hist):
                 insts[i].connect(p, sigs[2])
     # a no-connected port that is also referenced is a different property's fault class (C02): not a valid end state
     if any(view.get(k, ("",))[0] == "noconn" for k in referenced):
+        return None
+    # a reference cycle that runs through a concatenation (i1.a = Concat(i2.a), i2.a = i1.a) declares no net at all: such
+    # a mapping is not a valid end state (plain reference cycles are: they share one implicit signal)
+    def cyclic_through_concat(start):
+        seen, cur, through = set(), start, False
+        while cur in view and view[cur][0] in ("ref", "held", "catref"):
+            if cur in seen:
+                return through
+            seen.add(cur)
+            through = through or view[cur][0] == "catref"
+            cur = (view[cur][1], view[cur][2])
+        return False
+    if any(cyclic_through_concat(k) for k in view):
         return None
     # expected partition of the device terminals
     parent = {}
@@ -243,7 +270,7 @@ def check_elab_history(hist):
     for (i, p), t in view.items():
         if t[0] == "sig":
             union(("dev", i, p), ("sig", t[1]))
-        elif t[0] == "ref":
+        elif t[0] in ("ref", "held", "catref"):
             union(("dev", i, p), ("dev", t[1], t[2]))
         elif t[0] in ("bit", "cat"):
             union(("dev", i, p), ("bus", t[1]))
